@@ -30,6 +30,11 @@ VERIF = os.path.dirname(os.path.dirname(os.path.abspath(__file__)))
 MEM_LIMIT = int(os.environ.get("VF_MEM_GB", "10")) << 30
 
 
+import threading
+PROC_SEM = threading.BoundedSemaphore(int(os.environ.get("VF_PROCS", "16")))
+ACQ_LOCK = threading.Lock()
+
+
 class Undecided(Exception):
     pass
 
@@ -261,7 +266,7 @@ class Unit:
                  rec=False, flags=(), backends=("minisat",), canaries=(), bounded=None,
                  unwind=None, timeout=600, native=None, mode="c", tiers=("quick", "thorough"),
                  defines=None, trusted=(), assumptions=(), claim="", havoc_loops=False,
-                 expect_fail=(), object_bits=None, nondet_static=False, extra_files=()):
+                 expect_fail=(), object_bits=None, split=False, nondet_static=False, extra_files=()):
         self.__dict__.update(locals())
         del self.__dict__["self"]
 
@@ -463,31 +468,88 @@ def build_and_check(unit, tier, workdir, mutate=None, want_trace=True, tag="main
         base += ["--nondet-static"]
     if want_trace:
         base += ["--trace"]
-    # portfolio
+    res["cmds"].append(" ".join(base) + "  [back ends: %s]" % ",".join(unit.backends))
+    if unit.split:
+        groups = property_groups(cur, base, unit, d)
+        res["cmds"].append("split into %d obligation groups, each solved by its own cbmc process (--property ...)" % len(groups))
+
+        def solve(k_g):
+            k, g = k_g
+            extra = []
+            for nm in g:
+                extra += ["--property", nm]
+            return cbmc_portfolio(base + extra, unit, d, "%s_g%d" % (tag, k))
+        with ThreadPoolExecutor(max_workers=len(groups)) as ex:
+            outs = list(ex.map(solve, enumerate(groups)))
+        results, secs, bes = [], 0.0, set()
+        for g, (be, rs, msgs, dt, outp) in zip(groups, outs):
+            gs = set(g)
+            results += [r for r in rs if r.get("property") in gs]
+            secs = max(secs, dt)
+            bes.add(be)
+        res.update(backend="+".join(sorted(bes)), results=results, seconds=secs, out=outs[0][4], notes=[])
+        return res
+    be, results, msgs, dt, outp = cbmc_portfolio(base, unit, d, tag)
+    res.update(backend=be, results=results, seconds=dt, out=outp, notes=[])
+    return res
+
+
+HEAVY = ("postcondition", "loop_invariant_base", "loop_invariant_step", "loop_decreases", "precondition")
+
+
+def property_groups(gb, base, unit, d):
+    cmd = [c for c in base if c not in ("--trace",)] + ["--show-properties"]
+    rc, out, _ = run(cmd, 300)
+    try:
+        data = json.loads(out)
+    except Exception:
+        raise Undecided("cannot list properties of %s: %s" % (unit.name, out[-500:]))
+    names = []
+    for it in data:
+        if "properties" in it:
+            names = [pp["name"] for pp in it["properties"]]
+    if not names:
+        raise Undecided("vacuity: no properties listed for %s" % unit.name)
+    heavy = [n for n in names if classify(n) in HEAVY and not n.startswith("__CPROVER")]
+    light = [n for n in names if n not in set(heavy)]
+    groups = [[n] for n in heavy]
+    # light obligations (pointer/overflow/assigns checks) in a few buckets
+    nb = max(1, min(4, len(light) // 200 + 1))
+    for k in range(nb):
+        b = light[k::nb]
+        if b:
+            groups.append(b)
+    return groups
+
+
+def cbmc_portfolio(base, unit, d, tag):
     procs = {}
+    with ACQ_LOCK:
+        for be in unit.backends:
+            PROC_SEM.acquire()
     t0 = time.time()
     for be in unit.backends:
-        outp = os.path.join(d, "out_%s.json" % be)
+        outp = os.path.join(d, "out_%s_%s.json" % (tag, be))
         cmdb = base + BACKEND_FLAGS[be]
         f = open(outp, "w")
         p = subprocess.Popen(cmdb, stdout=f, stderr=subprocess.DEVNULL, preexec_fn=_limits)
-        procs[be] = (p, f, outp, cmdb)
-    res["cmds"].append(" ".join(base) + "  [back ends: %s]" % ",".join(unit.backends))
+        procs[be] = [p, f, outp, cmdb, True]
     winner = None
     notes = []
-    deadline = t0 + unit.timeout
+    deadline = time.time() + unit.timeout
     pending = dict(procs)
     while pending and winner is None:
         for be in list(pending):
-            p, f, outp, cmdb = pending[be]
+            p, f, outp, cmdb, held = pending[be]
             rc = p.poll()
             if rc is None:
                 continue
             f.close()
+            PROC_SEM.release()
             del pending[be]
             dt = time.time() - t0
+            results, msgs, status = parse_cbmc_json(outp)
             if rc in (0, 10):
-                results, msgs, status = parse_cbmc_json(outp)
                 if results is not None and not any(r.get("status") not in ("SUCCESS", "FAILURE") for r in results):
                     ign = [m for m in msgs if "ignoring" in m]
                     if ign:
@@ -497,27 +559,24 @@ def build_and_check(unit, tier, workdir, mutate=None, want_trace=True, tag="main
                     break
                 notes.append("%s: rc=%s but undecided statuses" % (be, rc))
             else:
-                results, msgs, status = parse_cbmc_json(outp)
                 notes.append("%s: rc=%s %s" % (be, rc, " | ".join((msgs or [])[-3:])[-600:]))
         if time.time() > deadline:
             break
         if winner is None and pending:
             time.sleep(0.1)
-    for be, (p, f, outp, cmdb) in pending.items():
+    for be, (p, f, outp, cmdb, held) in pending.items():
         try:
             os.killpg(p.pid, signal.SIGKILL)
         except ProcessLookupError:
             pass
         p.wait()
         f.close()
+        PROC_SEM.release()
         if winner is None:
             notes.append("%s: timeout after %ds" % (be, unit.timeout))
-    res["notes"] = notes
     if winner is None:
         raise Undecided("no back end decided %s (%s): %s" % (unit.name, tag, "; ".join(notes)))
-    be, results, msgs, dt, outp = winner
-    res.update(backend=be, results=results, seconds=dt, out=outp)
-    return res
+    return winner
 
 
 def classify(name):
